@@ -83,15 +83,16 @@ Section Graph.
     Context (HV : NoDup V) (H0 : In k0 V) (H1 : In k1 V) (Hne : k0 <> k1).
     Context (Hl : a' o E k0 k1 == 1) (Hr : E k0 k1 o a' == 1).
     Context (Z0 : E k0 k0 == 0) (Z1 : E k1 k1 == 0).
-    Context (DD : forall x y, lsum V (fun m => E m y o E x m) == 0).
+    Context (DD : forall x y, In x V -> In y V -> lsum V (fun m => E m y o E x m) == 0).
 
     Definition V' : list tkey := filter (fun j => negb (key_eqb j k1)) (filter (fun j => negb (key_eqb j k0)) V).
     Definition E' (x y : tkey) : phom C (ob x) (ob y) := E x y + - (E k0 y o a' o E x k1).
 
     (* the sum over the remaining vertices *)
-    Lemma punctured x y : lsum V' (fun m => E m y o E x m) == - (E k0 y o E x k0) + - (E k1 y o E x k1).
+    Lemma punctured x y :
+      In x V -> In y V -> lsum V' (fun m => E m y o E x m) == - (E k0 y o E x k0) + - (E k1 y o E x k1).
     Proof.
-      pose proof (DD x y) as D. rewrite (lsum_remove _ _ V k0) in D by assumption.
+      intros Hx Hy. pose proof (DD x y Hx Hy) as D. rewrite (lsum_remove _ _ V k0) in D by assumption.
       rewrite (lsum_remove _ _ _ k1) in D.
       2:{ apply NoDup_filter. assumption. }
       2:{ apply filter_In. split; [assumption|]. destruct (key_eqb_spec k1 k0); [congruence|reflexivity]. }
@@ -99,9 +100,9 @@ Section Graph.
       apply (padd_eq_0_neg C L) in D. rewrite D. apply (pneg_add C L).
     Qed.
 
-    Theorem elim_graph_dd x y : lsum V' (fun m => E' m y o E' x m) == 0.
+    Theorem elim_graph_dd x y : In x V -> In y V -> lsum V' (fun m => E' m y o E' x m) == 0.
     Proof.
-      set (bx := E x k1). set (gy := E k0 y o a').
+      intros Hx Hy. set (bx := E x k1). set (gy := E k0 y o a').
       (* expand every summand *)
       rewrite (lsum_ext _ _ V' _ (fun m =>
         (E m y o E x m + - ((E m y o E k0 m) o (a' o bx))) + (- (gy o (E m k1 o E x m)) + gy o ((E m k1 o E k0 m) o (a' o bx))))).
@@ -109,7 +110,7 @@ Section Graph.
           rewrite (pcomp_add_l C L), !(pcomp_add_r C L). rewrite !(pcomp_neg_l C L), !(pcomp_neg_r C L), (pneg_neg C L).
           rewrite !(pcomp_assoc C L). reflexivity. }
       rewrite !lsum_add, !lsum_neg. rewrite <- !lsum_comp_r. rewrite <- !lsum_comp_l.
-      rewrite !punctured.
+      rewrite (punctured x y), (punctured k0 y), (punctured x k1), (punctured k0 k1) by assumption.
       (* P(k0, y), P(x, k1), P(k0, k1) *)
       rewrite Z0, Z1. rewrite !(pcomp_0_r C L), !(pcomp_0_l C L), !(pneg_0 C L), !(padd_0_l C L), !(padd_0_r C L).
       rewrite !(pcomp_0_l C L), !(pcomp_0_r C L), (padd_0_r C L).
@@ -259,15 +260,20 @@ Section Sem.
     NoDup (map vkey (c_verts c)) -> k0 <> k1 ->
     edge (c_verts c) k0 k0 = None -> edge (c_verts c) k1 k1 = None ->
     cpx_eliminate c k0 k1 = Some c' ->
-    (forall x y, lsum C (map vkey (c_verts c)) (fun m => Eof (c_verts c) m y o Eof (c_verts c) x m) == 0) ->
-    forall x y, x <> k0 -> x <> k1 -> y <> k0 -> y <> k1 ->
+    (forall x y, In x (map vkey (c_verts c)) -> In y (map vkey (c_verts c)) ->
+       lsum C (map vkey (c_verts c)) (fun m => Eof (c_verts c) m y o Eof (c_verts c) x m) == 0) ->
+    forall x y, In x (map vkey (c_verts c')) -> In y (map vkey (c_verts c')) ->
       lsum C (map vkey (c_verts c')) (fun m => Eof (c_verts c') m y o Eof (c_verts c') x m) == 0.
   Proof.
-    intros Eh Et Ty Ic Nd Hne S0 S1 El DD x y Nx0 Nx1 Ny0 Ny1.
+    intros Eh Et Ty Ic Nd Hne S0 S1 El DD x y Hx Hy.
     destruct (eliminate_entry c k0 k1 c' Eh Et Ty Ic El) as (a & ainv & Ea & Einv & Tai & Il & Ir & Hent & _).
     apply eliminate_spec in El.
     destruct El as (a2 & ainv2 & v0 & v1 & Ea2 & _ & Ev0 & Ev1 & _ & _ & _ & _ & _ & Hk & _).
-    rewrite Hk. fold (V' (map vkey (c_verts c)) k0 k1).
+    rewrite Hk in Hx, Hy |- *. fold (V' (map vkey (c_verts c)) k0 k1) in Hx, Hy |- *.
+    assert (Mem : forall m, In m (V' (map vkey (c_verts c)) k0 k1) -> In m (map vkey (c_verts c)) /\ m <> k0 /\ m <> k1).
+    { intros m Hm. unfold V' in Hm. apply filter_In in Hm. destruct Hm as [Hm M1]. apply filter_In in Hm.
+      destruct Hm as [Hm M0]. apply negb_true_iff, key_eqb_neq in M0, M1. now repeat split. }
+    destruct (Mem x Hx) as (Hxv & Nx0 & Nx1). destruct (Mem y Hy) as (Hyv & Ny0 & Ny1).
     assert (Ea0 : Eof (c_verts c) k0 k1 = sem k0 k1 a) by (unfold Eof; now rewrite Ea).
     rewrite (lsum_ext C L _ _ _ _ (fun m => E' C ob (Eof (c_verts c)) k0 k1 (sem k1 k0 ainv) m y o
                                              E' C ob (Eof (c_verts c)) k0 k1 (sem k1 k0 ainv) x m)).
@@ -278,8 +284,7 @@ Section Sem.
       + now rewrite Ea0.
       + unfold Eof. now rewrite S0.
       + unfold Eof. now rewrite S1.
-    - intros m Hm. unfold V' in Hm. apply filter_In in Hm. destruct Hm as [Hm M1]. apply filter_In in Hm.
-      destruct Hm as [_ M0]. apply negb_true_iff, key_eqb_neq in M0, M1.
+    - intros m Hm. destruct (Mem m Hm) as (_ & M0 & M1).
       unfold E'. now rewrite (Hent m y), (Hent x m) by assumption.
   Qed.
 End Sem.
